@@ -16,7 +16,7 @@ from vlib.runner import Ctx, Failure
 LEVEL = "exploration"
 RULE = (
     "scenario = 1..3 subroutines with up to three create_epr/recv_epr requests (keep and measure, 1..3 pairs, same or "
-    "different sockets / remote nodes, optional reuse of one virtual id across the pairs of a request with qfree between) "
+    "different sockets / remote nodes, optional reuse of one virtual id across the pairs of a request with qfree between, id arrays of later subroutines at the address a completed request used) "
     "followed by wait_all / wait_any / wait_single and classical filler; schedule = choice sequence delivering 0..k in-flight "
     "responses before every instruction and >=1 inside a blocked wait; per (remote, purpose, role) responses arrive in "
     "request and pair order, receiver-side responses may precede recv_epr.  Thorough additionally enumerates all delivery "
@@ -119,6 +119,16 @@ def st_scenario(draw):
                      # a create request states its number of pairs itself: its result array may be longer than needed
                      "spare": draw(st.sampled_from([0, 0, 0, OK, 2 * OK])) if role == "create" else 0,
                      "c0": draw(st.sampled_from([None, None, 1, 2, 5])) if tp == "M" else None})
+    # a keep request of a later subroutine may name its qubits through the array address an earlier, completed request used
+    # (declared again, with its own contents)
+    # (one user of an address per subroutine: the controller reads the id array when a response arrives, so two outstanding
+    # requests cannot share one)
+    taken = set()
+    for i, r in enumerate(reqs):
+        earlier = [j for j in range(i) if reqs[j]["tp"] == "K" and reqs[j]["sub"] < r["sub"] and "ids_from" not in reqs[j] and (r["sub"], j) not in taken]
+        if r["tp"] == "K" and earlier and draw(st.booleans()):
+            r["ids_from"] = draw(st.sampled_from(earlier))
+            taken.add((r["sub"], r["ids_from"]))
     # at most 9 virtual qubits (unit module of 12)
     subs = []
     for s in range(nsub):
@@ -172,12 +182,13 @@ def build_text(scn, s) -> str:
         elif k == "req":
             i = op[1]
             r = scn["reqs"][i]
+            a_ids = addr(r.get("ids_from", i), "ids")
             if r["tp"] == "K":
-                lines.append(f"array {r['n']} @{addr(i, 'ids')}")
+                lines.append(f"array {r['n']} @{a_ids}")
                 for j, v in enumerate(r["ids"]):
-                    lines.append(f"store {v} @{addr(i, 'ids')}[{j}]")
+                    lines.append(f"store {v} @{a_ids}[{j}]")
             lines.append(f"array {OK * r['n'] + r.get('spare', 0)} @{addr(i, 'res')}")
-            qa = f"{addr(i, 'ids')}" if r["tp"] == "K" else "C0"
+            qa = f"{a_ids}" if r["tp"] == "K" else "C0"
             if r["tp"] != "K" and r.get("c0") is not None:
                 # the qubit-array operand of a measure request is ignored; here it happens to name an existing (short) array
                 lines.append(f"array {r['c0']} @{addr(i, 'ids')}")
@@ -483,6 +494,8 @@ def shard(ctx: Ctx) -> None:
             labels.append("create-with-longer-result-array")
         if any(r["reuse"] for r in scn["reqs"]):
             labels.append("virtual-id-reuse")
+        if any("ids_from" in r for r in scn["reqs"]):
+            labels.append("id-array-address-used-again")
         keys = [(r["remote"], r["sock"], r["role"]) for r in scn["reqs"]]
         if len(set(keys)) < len(keys):
             labels.append("same-key-requests")
